@@ -154,6 +154,11 @@ def cases(draw, tier):
         # display names are free text: several states may share one (identity of a state is its id / value, not its name)
         for s_ in spec["states"]:
             s_["name"] = draw(st.sampled_from(["Same", "Same", "Other", "S0", "s1"]))
+    if draw(st.integers(0, 2)) == 0:
+        # other documented ways to declare the same machine, incl. a subclass that adds one state to a concrete parent class
+        from .c15 import plan
+
+        spec["style"] = draw(plan(spec, [], True, extend=True))
     is_async = gen.is_async_spec(spec)
     cfg = {"rtc": True if is_async else draw(st.sampled_from([True, True, False])), "allow": draw(st.booleans()),
            "driver": draw(st.sampled_from(["sync", "sync", "loop"])), "activate": True,
